@@ -43,9 +43,10 @@ class Model:
             self._langs[k] = rx.regex_lang(p, flags, 'fullmatch', alpha=self.alpha)
         return self._langs[k]
 
-    def domain(self, extra=''):
-        """Σ_D*: printable ASCII, tab, printable non-space non-ASCII classes, plus `extra`"""
-        k = ('dom', extra)
+    def domain(self, extra='', spaces=False):
+        """Σ_D*: printable ASCII, tab, printable non-space non-ASCII classes, plus `extra`; with spaces=True also the space separators
+        beyond ASCII (NBSP, U+3000 ...), which C02 does not exclude from values while C08 names them as outside its domain"""
+        k = ('dom', extra, spaces)
         if k not in self._langs:
             ok = set()
             for i, c in enumerate(self.alpha.syms):
@@ -53,6 +54,8 @@ class Model:
                     ok.add(i)
                 elif ord(c) >= 0x80 and c.isprintable() and not c.isspace() and len(('a' + c + 'b').splitlines()) == 1:
                     ok.add(i)
+                elif spaces and ord(c) >= 0x80 and c.isspace() and len(('a' + c + 'b').splitlines()) == 1 and __import__('unicodedata').category(c) == 'Zs':
+                    ok.add(i)      # the space separators beyond ASCII (NBSP, U+3000 ...): text like any other inside a value
             self._langs[k] = rx.from_function(self.alpha, [], 0, lambda s, sym: 0 if (s == 0 and sym in ok) else 1,
                                               lambda s: s == 0)
         return self._langs[k]
